@@ -67,6 +67,17 @@ Definition mon (m : mst) (o : op) (out : list obs) : mst * verdict :=
       | [], [sv] => ({| m_n := m_n m + outs_of out; m_store := sv |}, snap_verdict m out)
       | _, _ => (m, [CL_SHAPE])
       end
+  | Keep =>
+      (* one more object in the application's hands; nothing else may be reported but changes *)
+      match out with
+      | Kept :: r =>
+          ({| m_n := S (m_n m); m_store := m_store m |},
+           snap_verdict m r ++ (if Nat.eqb (length (changed_of r)) (length r) then [] else [CL_SHAPE]))
+      | _ => (m, [CL_SHAPE])
+      end
+  | Ext _ =>
+      (* an operation outside the model: whatever it is, nothing handed out may change *)
+      (m, snap_verdict m out ++ (if Nat.eqb (length (changed_of out)) (length out) then [] else [CL_SHAPE]))
   end.
 
 (* Nothing is excused: the repaired code satisfies every clause on every history. *)
